@@ -106,7 +106,9 @@ CLAIMS = {
     "C13": ("proof", "Proof for strings of unbounded length and all 12 provider path conventions (quick tier: 4 representative ones): "
             "normalize_path_separators contract, split/dirname/basename, join totality, joined-is-inside with the same relative part, "
             "prefix sibling not inside, replace_path moves exactly the relative part and raises ValueError iff not a subpath, "
-            "paths_match is an equivalence that agrees with normalisation, translate uses the source side's conventions; every "
+            "paths_match is an equivalence that agrees with normalisation, a target that is the folder itself (up to separators, and up to "
+            "letter case on a case-insensitive provider) is inside it with the empty relative part and not strictly inside it, translate "
+            "uses the source side's conventions; every "
             "subscript carries a no-exception obligation (found D4 and D8, both fixed). Counterexamples are replayed on the real code.",
             "String builtins follow specifications (strip/find/replace/lower as functions with axioms) conformance-tested against CPython each run; normalize_path's own body is not proved."),
     "C14": ("proof", "Lemma-level proof. Events without an id are ignored (except a folder deletion matched by path); a walk event that "
@@ -147,11 +149,18 @@ CLAIMS = {
             "reports stopped; a service not asked to stop calls its work function; stop() raises the flags, wakes the loop and joins the "
             "service thread exactly when there is one and the caller asked to wait (sequential core of stop); notification kinds. Stop/start races between threads are NOT claimed.",
             "The loop is verified by arbitrary-iteration abstraction with an inferred frame; the work function is an arbitrary callee with five outcome kinds."),
-    "C19": ("exploration", "Bounded stand-in only: the coherence invariant (tree shape, id map = reachable nodes with ids, path<->id "
-            "inverse) is an inductive predicate over a recursive structure that pyvc's first-order obligations cannot express; all "
-            "sequences of <= 2 (thorough: 3) cache calls plus seeded random sequences, both case modes, invariant checked after every "
-            "call. One known finding (id of an ancestor/descendant re-used).",
-            "Exhaustive only up to the stated sequence length."),
+    "C19": ("exploration", "Bounded stand-in for the property as stated: the coherence invariant (tree shape, id map = reachable nodes with "
+            "ids, path<->id inverse) is an inductive predicate over a recursive structure that pyvc's first-order obligations cannot "
+            "express; all sequences of <= 2 (thorough: 3) cache calls plus seeded random sequences, both case modes, invariant checked "
+            "after every call. One known finding (id of an ancestor/descendant re-used). In addition four deductive lemmas on the "
+            "non-recursive id-map maintenance, over an id map of arbitrary content (contracts/cache_laws.py; discharged obligations, "
+            "reported separately from the bounded part and not raising the level): _set_oid evicts the previous holder of an id "
+            "first and then binds an id-less node in place / replaces a node that carries another id; _delete of a file node unlinks "
+            "it from its parent, clears its parent link and forgets its id while no other binding changes; _delete of the root or of "
+            "nothing is a no-op; id-keyed lookups read the id map and change nothing.",
+            "Exhaustive only up to the stated sequence length. Lemmas: delete / __make_node / Node.full_path are arbitrary callees; "
+            "assumed representation facts: a node found under key k carries id k, weak parent references are alive; the recursive "
+            "operations (delete of a folder, rename, __insert_node, _walk of a folder) are not under contract."),
     "C20": ("proof", "Lemma-level proof. The smart pre-sync gate finishes an unrequested remote-only file without any transfer and lets "
             "requested entries, local files and folders through; un-request makes no call on the remote provider and its only write "
             "is a local delete of the object at the entry's local path, leaving the remote side unsynced rather than deleted; a "
@@ -187,7 +196,7 @@ def main():
             "engine": "pyvc",
             "level_claimed": {"category": cat, "text": text, "design_ref": "DESIGN.md section 7, %s; section 12 (what was built)" % pid},
             "level_note": NOTE_BASE + note,
-            "technique": TECH if cat == "proof" else "bounded stand-in (exhaustive small scope + seeded random) of the same contract, run on the real code",
+            "technique": TECH if cat == "proof" else "bounded stand-in (exhaustive small scope + seeded random) of the same contract, run on the real code; plus contract-based deductive lemmas (pyvc VCs + SMT) on the non-recursive helper functions, reported separately",
         })
     na = [{"property_id": k, "reason": v} for k, v in NA.items()]
     for p in props:
